@@ -38,10 +38,10 @@ def dedupe(behs):
     return out
 
 
-def replay(c, behs, native, nkeys, insts, drain=True, padding=False, timeout=3000):
+def replay(c, behs, native, nkeys, insts, drain=True, padding=False, timeout=3000, sweeper_cut=False):
     d = vlib.scratch('proto-')
     p = os.path.join(d, 'in.json')
-    json.dump({'native': native, 'nkeys': nkeys, 'insts': insts, 'drain': drain, 'padding': padding,
+    json.dump({'native': native, 'nkeys': nkeys, 'insts': insts, 'drain': drain, 'padding': padding, 'sweeper_cut': sweeper_cut,
                'behaviours': behs}, open(p, 'w'))
     return vlib.run_harness(['proto', p], timeout=timeout)
 
